@@ -7,7 +7,7 @@ Definition et_sigterm_ms : N := 2000.         (* SIGTERM_TIMEOUT *)
 Definition et_sigint_ms : N := 3000.          (* SIGINT_TIMEOUT *)
 Definition et_kill_transition_ms : N := 5000. (* KILL_TRANSITION_TIMEOUT *)
 Definition et_startup_poll_ms : N := 500.     (* startupPollingInterval *)
-Definition et_startup_timeout_ms : N := 30000.(* startupTimeout *)
+Definition et_startup_timeout_ms : N := 30000. (* startupTimeout *)
 Definition et_running_delay_ms : N := 200.    (* time.AfterFunc delay of TASK_RUNNING in doLaunch *)
 Definition et_pending_cap : N := 1.           (* cap(pendingFinalTaskStateCh) *)
 Definition et_stop_guards_nil : bool := true. (* ensureBasicTaskKilled tests ProcessState != nil before Exited() *)
